@@ -106,7 +106,15 @@ pub fn cfg_of(c: &Case) -> Cfg {
     match c.mapping {
         1 => cfg.type_mappings.push(("User".into(), "Mapped".into())),
         2 => cfg.type_mappings.push(("G".into(), "MappedG".into())),
-        3 => cfg.type_mappings.push(("Vec<u8>".into(), "Bytes".into())),
+        // mappings keyed by instances of special types (only TypeScript, Go and Python look those up)
+        3 => {
+            cfg.type_mappings.push(("Vec<u8>".into(), "Bytes".into()));
+            cfg.type_mappings.push(("[u8]".into(), "FixedBytes".into()));
+            cfg.type_mappings.push(("&[u8]".into(), "SliceBytes".into()));
+            cfg.type_mappings.push(("[String]".into(), "Names".into()));
+            cfg.type_mappings.push(("Option<i16>".into(), "MaybeShort".into()));
+            cfg.type_mappings.push(("i8".into(), "Tiny".into()));
+        }
         _ => {}
     }
     cfg
@@ -268,7 +276,7 @@ pub fn run(args: &[String]) -> i32 {
             report::threads(),
             u64::MAX,
         );
-        merge(&mut rep, "unary_chains", accs, &stats, json!({"max_constructors": depth, "depth_incl_leaf": depth + 1, "leaves": 17, "constructors": ["Vec", "[_;3]", "&[_]", "Option", "Box", "&"], "positions": 4, "languages": 6, "configs": 2, "mappings": ["none", "User->Mapped", "Vec<u8>->Bytes (TS/Go/Python)"]}));
+        merge(&mut rep, "unary_chains", accs, &stats, json!({"max_constructors": depth, "depth_incl_leaf": depth + 1, "leaves": 17, "constructors": ["Vec", "[_;3]", "&[_]", "Option", "Box", "&"], "positions": 4, "languages": 6, "configs": 2, "mappings": ["none", "User->Mapped", "special-type instances: Vec<u8>, [u8], &[u8], [String], Option<i16>, i8 (TS/Go/Python)"]}));
     }
     // 2. every smart pointer name and path qualification, at depth ≤ 2
     {
